@@ -27,7 +27,7 @@ var ev = kit.Ev("C10")
 func init() {
 	ev.Rule("configuration = (client auth, server auth, client enc, server enc) in {REQUIRED,PREFERRED,OPTIONAL,NEVER}^4 x method-list shape " +
 		"{identical, overlapping in opposite orders, disjoint, one side empty, only an unimplemented or unknown method in common, unimplemented first then usable} over CLAIMTOBE/FS/TOKEN " +
-		"x cipher lists {AES both, none in common, client empty} x {command, auth-only}; real client and real server over an in-memory connection; " +
+		"x cipher lists {AES both, none in common, client empty, AES and legacy names in the same/opposite/longer orders on either side, only a legacy name in common} x {command, auth-only}; real client and real server over an in-memory connection; " +
 		"oracle: independently written decision table (fail / authentication runs / encryption on), explicit denial on failure, both ends report the same Authentication, Encryption, SessionId and " +
 		"exchange a probe message each way; non-trivial = any cell except all-OPTIONAL with identical lists; distinct by configuration")
 	ev.Assume("'authentication ran' is observed on the wire tap (the client sent a method bitmask message), not taken from cedar's report")
@@ -84,6 +84,26 @@ func initShapes() {
 	}
 }
 
+// cipher-list shapes. cedar protects streams with AES-GCM only; BLOWFISH and 3DES are names it can list and
+// negotiate about but not use, so "a mutually supported method" means AES on both lists, wherever it stands.
+var (
+	aes, bf, des = security.CryptoAES, security.CryptoBlowfish, security.Crypto3DES
+	ciphers      = []struct {
+		name   string
+		c, s   []security.CryptoMethod // s nil: the base configuration's list (AES)
+		common bool
+	}{
+		{"aes-both", nil, nil, true},
+		{"none-in-common", []security.CryptoMethod{bf}, nil, false},
+		{"client-empty", nil, nil, false},
+		{"legacy-first-on-client", []security.CryptoMethod{bf, aes}, []security.CryptoMethod{aes, bf}, true},
+		{"legacy-first-on-server", []security.CryptoMethod{aes, bf}, []security.CryptoMethod{bf, aes}, true},
+		{"client-long-list", []security.CryptoMethod{des, bf, aes}, []security.CryptoMethod{aes}, true},
+		{"server-long-list", []security.CryptoMethod{aes}, []security.CryptoMethod{bf, des, aes}, true},
+		{"only-legacy-common", []security.CryptoMethod{bf, aes}, []security.CryptoMethod{bf, des}, false},
+	}
+)
+
 type expect struct {
 	fail    bool
 	authRun bool
@@ -93,7 +113,7 @@ type expect struct {
 // table is the independently written decision table from the property text.
 func table(c Config, sh shape) expect {
 	var e expect
-	commonCipher := c.Cipher == 0
+	commonCipher := ciphers[c.Cipher].common
 	authReq := c.CA == req || c.SA == req
 	encReq := c.CE == req || c.SE == req
 	conflict := func(a, b int) bool { return (a == req && b == never) || (a == never && b == req) }
@@ -120,11 +140,11 @@ func mkConfigs(c Config, sh shape) (*security.SecurityConfig, *security.Security
 	cc := kit.BaseConfig(levels[c.CA], levels[c.CE], sh.c...)
 	sc := kit.BaseConfig(levels[c.SA], levels[c.SE], sh.s...)
 	cc.AuthMethods, sc.AuthMethods = sh.c, sh.s
-	switch c.Cipher {
-	case 1:
-		cc.CryptoMethods = []security.CryptoMethod{security.CryptoBlowfish}
-	case 2:
-		cc.CryptoMethods = nil
+	if c.Cipher != 0 {
+		cc.CryptoMethods = append([]security.CryptoMethod(nil), ciphers[c.Cipher].c...)
+		if ciphers[c.Cipher].s != nil {
+			sc.CryptoMethods = append([]security.CryptoMethod(nil), ciphers[c.Cipher].s...)
+		}
 	}
 	if !c.Command {
 		cc.Command = security.NoCommand
@@ -259,9 +279,12 @@ func allConfigs(shapeSel func(int) bool, full bool) []Config {
 		}
 		for i := 0; i < 256; i++ {
 			lv := string([]byte{levelCh[i>>6&3], levelCh[i>>4&3], levelCh[i>>2&3], levelCh[i&3]})
-			for cipher := 0; cipher < 3; cipher++ {
+			for cipher := range ciphers {
 				for _, cmd := range []bool{true, false} {
 					if !full && (cipher != 0 || !cmd) {
+						continue
+					}
+					if cipher >= 3 && !(sh == 0 || sh == 1 || sh == 9) { // the mixed cipher lists go with three method-list shapes
 						continue
 					}
 					c := Config{Levels: lv, Shape: sh, Cipher: cipher, Command: cmd}
@@ -425,7 +448,7 @@ func TestC10Matrix(t *testing.T) {
 	}
 	runAll(t, mine)
 	if full {
-		ev.Exhaustive(fmt.Sprintf("the whole product: 256 level cells x %d list shapes x 3 cipher lists x {command, auth-only}", len(shapes)))
+		ev.Exhaustive(fmt.Sprintf("the whole product: 256 level cells x %d list shapes x 3 cipher lists x {command, auth-only}, and 256 cells x 3 list shapes x 5 mixed cipher lists (AES and legacy names in differing orders) x {command, auth-only}", len(shapes)))
 	} else {
 		ev.Exhaustive("all 256 level cells for the list shapes identical-claimtobe, opposite-orders, only-unimplemented-common (AES both, command present)")
 	}
